@@ -10,8 +10,8 @@ Case  c18.bf      payload [alts, rankings, mults, ks]
    every (k, result) with the verified optimum min_partition:  optimum <= k -> a partition passing partition_check
    with exactly `optimum` axes;  optimum > k -> None.
 rankings : flat strict complete rankings (distinct), storage order; mults : multiplicities (>= 1).
-OPEN FINDING KF-C18-a (known_findings.json): from m = 6 on the brute force is not minimum (pairs only inside one L-set).
-The c18.bf cases with m >= 6 are therefore a fixed set (det_bf_cases) and the finding is matched by input sha-256."""
+Defect KF-C18-a (from m = 6 on the brute force was not minimum: pairs only inside one L-set) was found by this check and
+repaired in /repo by 175f7ec; its 77 failing inputs are kept in corpus/C18/fixed-175f7ec-bruteforce-not-minimum.json."""
 import itertools
 import random
 import sys
@@ -23,9 +23,9 @@ RULE = ("approx (seed-dependent): exhaustive small sets (below); random / plante
         "k hidden blocks, randomly interleaved) / planted + noise / reversal pairs / cyclic shifts, m <= 25, n <= 15, arbitrary "
         "non-negative ids (id 0 in about half of the cases); axes through the verified checker at every size, reference optimum for m <= 8. "
         "brute force, every k in 1..m+1: m <= 5 exhaustive (below) + seed-dependent random/planted/cyclic (n <= 4, cyclic "
-        "n <= m), m = 1 and m = 2 included, NO known finding applies there; m >= 6: a FIXED case set (constant seeds "
-        "18000006 / 18000007, independent of VERIF_SEED, thorough contains quick): m = 6-8 (thorough 6-9), odd and even m - the "
-        "open finding KF-C18-a is matched by the sha-256 of exactly the failing inputs of that set. "
+        "n <= m), m = 1 and m = 2 included; m >= 6: a fixed core of 3 000 profiles (constant seed) + regression profiles + "
+        "10 000 (thorough 23 000) seed-dependent profiles, m = 6-8 (thorough 6-9), odd and even m; the corpus (77 inputs of "
+        "the repaired defect KF-C18-a, the cap defect 07cd506) runs first. "
         "non-trivial = reference optimum >= 2 axes")
 EXHAUSTIVE = {"quick": "both functions: all sets of 1-2 distinct strict orders over m<=3, with the ids 1..m and with the ids 0..m-1; brute force: every set of <= 3 strict "
                        "orders over m = 4 and m = 5 containing the identity ranking (= every profile of <= 3 orders up to "
@@ -42,11 +42,7 @@ ASSUMPTIONS = ["data_type = soc; every order ranks every alternative exactly onc
                "distinct; k >= 1 (quantifier of C18)",
                "k_alternative_partition_brut_force returns ONE partition (a list of axes) or None - the docstring's "
                "'list of optimal partitions' is not what the code does; the property text ('returns such a partition') "
-               "agrees with the code",
-               "the brute-force cases with m >= 6 do not depend on VERIF_SEED (fixed set, see RULE): open finding KF-C18-a "
-               "(k_alternative_partition_brut_force is not minimum from m = 6 on) is identified by input, so a "
-               "seed-dependent campaign there would meet new failing inputs on the unchanged tree; "
-               "regenerate the list with  python -m props.c18_known --write"]
+               "agrees with the code"]
 COVER_FILES = ["properties/subdomains/ordinal/singlepeaked/k_alternative_partition.py",
                "properties/subdomains/ordinal/singlepeaked/k_alternative_deletion.py"]
 COVER_TIMEOUT_S = 60
@@ -161,29 +157,40 @@ def bf_case(alts, rankings, mults=None, **tags):
     return case("c18.bf", [list(alts), rankings, mults, ks], m=len(alts), **tags)
 
 
-DET_SEED_QUICK = 18000006
-DET_SEED_THOROUGH = 18000007
+CORE_SEED = 18000006
+CORE_SIZE = 3000
+
+# profiles (ids 0..m-1, multiplicities 1) on which a seeded change of the repaired DFS showed up only about once in
+# 20 000 random profiles (seeded/C18-3: a piece gets its own new axis only if it fits on no existing axis)
+REGRESSION_PROFILES = [
+    [[1, 4, 2, 6, 3, 7, 5, 0], [6, 5, 2, 3, 1, 4, 7, 0], [1, 0, 6, 3, 7, 5, 4, 2]],
+    [[7, 5, 6, 2, 1, 0, 3, 4], [0, 4, 6, 5, 3, 1, 7, 2], [2, 1, 6, 7, 0, 3, 5, 4]],
+    [[5, 1, 3, 0, 4, 6, 2], [4, 5, 1, 0, 2, 6, 3], [6, 5, 2, 4, 1, 0, 3], [0, 3, 1, 6, 5, 4, 2]],
+    [[5, 4, 2, 0, 3, 1, 6], [1, 3, 2, 4, 5, 0, 6], [6, 1, 4, 0, 5, 3, 2]],
+    [[1, 2, 3, 0, 4, 6, 5], [0, 3, 4, 5, 6, 2, 1], [3, 5, 6, 2, 4, 0, 1], [2, 0, 6, 3, 1, 4, 5]],
+    [[2, 3, 0, 1, 4, 5, 6], [3, 4, 6, 5, 1, 0, 2], [2, 4, 3, 0, 5, 1, 6], [2, 1, 4, 3, 0, 5, 6]]
+]
 
 
-def det_bf_cases(tier):
-    """The brute-force cases with m >= 6: a FIXED set (constant seeds, independent of VERIF_SEED), identical in every
-    run; the thorough set contains the quick set.  Open finding KF-C18-a lives at m >= 6 and is matched in
-    known_findings.json by the sha-256 of exactly these inputs (regenerate with  python -m props.c18_known)."""
+def core_bf_cases():
+    """Fixed core of the brute-force cases with m >= 6 (constant seed, identical in every run and tier): the first
+    CORE_SIZE profiles of the former fixed campaign set + REGRESSION_PROFILES.  (The 77 inputs on which the defect
+    KF-C18-a, repaired by 175f7ec, showed are in corpus/C18/fixed-175f7ec-bruteforce-not-minimum.json and run first.)"""
     out = []
-    rq = random.Random(DET_SEED_QUICK)
-    for i in range(13000):
+    rq = random.Random(CORE_SEED)
+    for i in range(CORE_SIZE):
         m = 8 if i % 50 == 7 else rq.choice([6, 6, 7])
         alts = rand_ids(rq, m)
         votes, mults, style = mixed_votes(rq, i, m, alts)
-        out.append(bf_case(rand_perm(rq, alts), votes, mults, style=style, det=1))
-    if tier != "quick":
-        rt = random.Random(DET_SEED_THOROUGH)
-        for i in range(13000):
-            m = 9 if i % 65 == 7 else rt.choice([6, 7, 7, 8])
-            alts = rand_ids(rt, m)
-            votes, mults, style = mixed_votes(rt, i, m, alts)
-            out.append(bf_case(rand_perm(rt, alts), votes, mults, style=style, det=2))
+        out.append(bf_case(rand_perm(rq, alts), votes, mults, style=style, core=1))
+    for votes in REGRESSION_PROFILES:
+        out.append(bf_case(sorted(votes[0]), votes, core=2))
     return out
+
+
+def det_bf_cases(tier):
+    """kept for the dormant tool props/c18_known.py: the fixed part of the m >= 6 campaign"""
+    return core_bf_cases()
 
 
 def generate(tier, seed):
@@ -233,9 +240,18 @@ def generate(tier, seed):
         votes, mults, style = mixed_votes(rng, i, m, alts)
         add_bf(rand_perm(rng, alts), votes, mults, style=style)
 
-    # ---- brute force, m >= 6: the fixed set, spread evenly over the (cheap) cases generated so far so that the oracle's
-    # request stream is balanced over its worker processes (the order of the cases has no other meaning)
-    det = det_bf_cases(tier)
+    # ---- brute force, m >= 6: the fixed core + a seed-dependent remainder (m = 6-8, thorough 6-9), spread evenly over
+    # the (cheap) cases generated so far so that the oracle's request stream is balanced over its worker processes
+    # (the order of the cases has no other meaning)
+    det = core_bf_cases()
+    for i in range(10000 if not thorough else 23000):
+        if thorough:
+            m = 9 if i % 115 == 7 else rng.choice([6, 7, 7, 8])
+        else:
+            m = 8 if i % 50 == 7 else rng.choice([6, 6, 7])
+        alts = rand_ids(rng, m)
+        votes, mults, style = mixed_votes(rng, i, m, alts)
+        det.append(bf_case(rand_perm(rng, alts), votes, mults, style=style))
     step = max(1, len(out) // max(1, len(det)))
     merged, j = [], 0
     for i, c in enumerate(out):
